@@ -343,7 +343,53 @@ fn escape_soup(ctx: &mut Ctx, n: usize) {
     ctx.rng = rng;
 }
 
+/// long texts: valid ones (big lists, maps, strings, comments, chains) and token soup of 20 - 200 KB
+fn long_texts(ctx: &mut Ctx, n: usize) {
+    let mut rng = ctx.rng.clone();
+    if ctx.shard % 4 == 1 {
+        let valid = [
+            format!("[{}i1]", "i1, \"s\\n\", f1.5, ".repeat(20_000)),
+            format!("{{{}z: none}}", (0..20_000).map(|i| format!("key_{i}: d{i}.5, ")).collect::<String>()),
+            format!("\"{}\"", "é\\u{41}\\t".repeat(100_000)),
+            format!("// {}\ni1 // {}\n", "c".repeat(500_000), "t".repeat(500_000)),
+            format!("a{}", " + b.c.0 * i2".repeat(3_000)),
+            format!("// n\n{}i1", (0..5_000).map(|i| format!("@k{i}: [i{i}, \"v\"];\n")).collect::<String>()),
+            format!("{}i1", " \t\r\n\u{a0}".repeat(100_000)),
+            format!("f({})", "g(".repeat(500) + "i1" + &")".repeat(500)),
+            format!("{}", "i1 ".repeat(50_000)),
+            format!("[{}", "[i1], ".repeat(50_000)),
+            format!("\"{}", "unterminated ".repeat(50_000)),
+            format!("{}\"", "x".repeat(300_000)),
+        ];
+        for t in &valid {
+            judge(ctx, t, "long-texts", Want::NoPanic);
+        }
+    }
+    let pieces = ["i1", "f1.5", "d2", "\"s\"", "\"\\u{41}\"", "a", "facts", ":s", "(", ")", "[", "]", "{", "}", ",", ":", ";", ".", ".0", "+", "-", "*", "/", "%", "&", "|", "^", "!", "==", "!=", "<", ">=", "and", "or", "if", "then", "else", "contains", "in", "none", "true", "int(", "f(", "@k:", "// c\n", "\n", " ", "\t", "é", "\u{1F600}", "0x1f", "i99999999999999999999999999999999999999999", "\"", "\\"];
+    for _ in 0..n {
+        let len = 2_000 + rng.below(20_000);
+        let mut s = String::new();
+        // mostly well-formed runs with occasional junk, so that the parser gets far before it gives up
+        let valid_run = rng.chance(1, 2);
+        for k in 0..len {
+            if valid_run && k % 2 == 1 {
+                s.push_str(*rng.pick(&[" + ", " * ", " and ", " == ", ", ", " - "]));
+            } else if valid_run {
+                s.push_str(*rng.pick(&["i1", "a.b", "f(x)", "[i1]", "\"s\"", "(i2)", "-i3", "{k: a}", "d1.5"]));
+                if rng.chance(1, 2_000) {
+                    s.push_str(*rng.pick(&pieces));
+                }
+            } else {
+                s.push_str(*rng.pick(&pieces));
+            }
+        }
+        judge(ctx, &s, "long-texts", Want::NoPanic);
+    }
+    ctx.rng = rng;
+}
+
 fn run(ctx: &mut Ctx) {
+    long_texts(ctx, ctx.tier.of(12, 120));
     if ctx.shard == 3 {
         // \u{…} beyond 10FFFF whose low bits are a valid scalar value: a parse error, like every other out-of-range escape
         for t in ["\"\\u{100000041}\"", "\"\\u{f0000006B}\"", "\"\\u{ABCDEF010001F600}\"", "\"\\u{10000000000000041}\"", "\"\\u{1000041}\"", "\"\\u{200041}\""] {
@@ -374,7 +420,7 @@ fn finish(m: &Merged, tier: Tier) -> Finish {
         exhaustive_part: format!("token sequences of length <= {} over the alphabet, the magnitude grid and the escape grid are enumerated completely", tier.of(3, 4)),
         ..Default::default()
     };
-    for fam in ["named-must-reject", "named-in-rule", "magnitudes", "escapes", "token-sequences", "generated-mutated", "random-strings", "escape-soup"] {
+    for fam in ["named-must-reject", "named-in-rule", "magnitudes", "escapes", "token-sequences", "generated-mutated", "random-strings", "escape-soup", "long-texts"] {
         f.floors.push(floor(format!("family {fam}: {} texts", m.c(&format!("family:{fam}"))), m.c(&format!("family:{fam}")) >= 100));
     }
     let acc = m.c("outcome:Expr::parse:accepted") + m.c("outcome:Rule::parse:accepted");
